@@ -73,7 +73,9 @@ class Run:
     def __call__(self, tape):
         S, W = mods()
         cfg = self.cfg
-        model = RefWL(cfg["seq"], cfg["nbins"], cfg["binmin"], cfg["binmax"], cfg["flatchk"], cfg["flatcrit"], cfg["conv"], kappa_of)
+        def new_model():
+            return RefWL(cfg["seq"], cfg["nbins"], cfg["binmin"], cfg["binmax"], cfg["flatchk"], cfg["flatcrit"], cfg["conv"], kappa_of)
+        cur = {"model": new_model()}
         st = {"phase": "select", "p": None, "u": None, "events": 0, "expect_flat": False, "log": [], "viol": None,
               "accept_seen": False, "reject_seen": False, "finished_model": False}
 
@@ -92,6 +94,7 @@ class Run:
         tape.float_menu = menu
 
         def hook(kind, ev):
+            model = cur["model"]
             st["events"] += 1
             if st["viol"]:
                 return
@@ -156,6 +159,17 @@ class Run:
                     return _m(t)
                 tape.float_menu = menu2
                 result = wl.run()
+                for extra_run in range(cfg.get("runs", 1) - 1):
+                    # the SAME machine is run again: an independent run, judged by a fresh reference machine
+                    self.check_outputs(cur["model"], st, result, fs, wl)
+                    cur["model"] = new_model()
+                    st.update({"phase": "select", "p": None, "expect_flat": False, "finished_model": False})
+                    st["log"].append(("RUN", extra_run + 2))
+                    fs.files.clear()
+                    result = wl.run()
+        except Mismatch as m_:
+            st["viol"] = (m_.key, m_.what)
+            status = "mismatch"
         except C.Truncated as e:
             status = "truncated"
             err = str(e)
@@ -171,6 +185,7 @@ class Run:
                 del W.open
             except AttributeError:
                 pass
+        model = cur["model"]
         viols = []
         if st["viol"]:
             viols.append(st["viol"])
@@ -368,6 +383,8 @@ def configs(tier):
         dict(name="KKEEGG/2bins[0,.5]/p3/1upd", seq="KKEEGG", nbins=2, binmin=0, binmax=0.5, flatchk=3, flatcrit=0.3, conv=math.exp(0.6)),
         dict(name="KKKEEEGG/1bin/p2/2upd", seq="KKKEEEGG", nbins=1, binmin=0, binmax=1, flatchk=2, flatcrit=0.9, conv=math.exp(0.3)),
     ]
+    base.append(dict(name="KKKEEEGG/1bin/p2/1upd/run-twice", seq="KKKEEEGG", nbins=1, binmin=0, binmax=1, flatchk=2, flatcrit=0.9,
+                     conv=math.exp(0.6), runs=2))
     base.append(dict(name="KKEEGGGG/3bins[.2,.8]/p3/1upd", seq="KKEEGGGG", nbins=3, binmin=0.2, binmax=0.8, flatchk=3, flatcrit=0.3,
                      conv=math.exp(0.6)))
     if tier == "quick":
@@ -387,9 +404,23 @@ def configs(tier):
     return base + more
 
 
+def sequence_shard(s):
+    """Several sequences with the same composition but different residues, run one after another in a freshly imported package."""
+    from ..engines.history import fresh_world
+    _, cfgs, seed = s
+    acc = core.Acc()
+    fresh_world()
+    mods()
+    for k, cfg in enumerate(cfgs):
+        explore_config(cfg, 0 if k == 0 else 1, seed, 40 + k, 400, acc, ndet=1)
+    return acc
+
+
 def shard(s):
     if s[0] == "geometry":
         return geometry_shard(s)
+    if s[0] == "sequence":
+        return sequence_shard(s)
     acc = core.Acc()
     cfg, bound, seed, stream, horizon, prefixes = s
     mods()
@@ -399,6 +430,11 @@ def shard(s):
 
 def replay(case):
     mods()
+    if case["cfg"].get("name", "").endswith("in-sequence") if "cfg" in case else False:
+        same = [dict(case["cfg"], seq=q, name="%s/2bins[0,1]/p3/1upd/in-sequence" % q) for q in ("KKEEGG", "RRDDAS", "KRDEGS", "KKEEGG")]
+        a = sequence_shard(("sequence", same, case["seed"]))
+        a2 = sequence_shard(("sequence", list(reversed(same[:3])), case["seed"]))
+        return a.violations + a2.violations
     if case.get("kind") == "geometry":
         a = geometry_shard(None)
         return [v for v in a.violations if v["case"] == case]
@@ -437,6 +473,10 @@ def run(tier, seed, t0):
                 shards.append((cfg, bound, base_seed, stream, 400, pre[i:i + k]))
     shards.sort(key=lambda s: -s[1])
     shards.append(("geometry", 0))
+    same = [dict(name="%s/2bins[0,1]/p3/1upd/in-sequence" % q, seq=q, nbins=2, binmin=0, binmax=1, flatchk=3, flatcrit=0.3, conv=math.exp(0.6))
+            for q in ("KKEEGG", "RRDDAS", "KRDEGS", "KKEEGG")]
+    shards.append(("sequence", same, base_seed))
+    shards.append(("sequence", list(reversed(same[:3])), base_seed + 1))
     acc_plan = {"d<=%d" % b: sum(1 for p_ in plan if p_[2] == b) for b in (1, 2, 3)}
     acc = core.pmap(shard, shards)
     both = acc.extra.get("accepted_steps", 0) > 0 and acc.extra.get("rejected_steps", 0) > 0
@@ -455,7 +495,9 @@ def run(tier, seed, t0):
              "bin, flat-check schedule, flatness test, f <- sqrt f, H reset, stop <=> f <= threshold; completed runs: returned array, "
              "DOS/DOS_local/histogram_bins/glog/hlog/seqlog files. First 4 executions per shard and every violating one are replayed "
              "and their observation logs compared. Bin geometry alone (centres, range bins, range test) is additionally checked by "
-             "construction for every (nbins<=10, binmin, binmax on a 0.05 grid) whose width divides [0,1]. non-trivial = completed runs" % (
+             "construction for every (nbins<=10, binmin, binmax on a 0.05 grid) whose width divides [0,1]. One configuration runs the same "
+             "machine twice (the second run judged by a fresh reference machine); four same-composition sequences (KKEEGG, RRDDAS, KRDEGS, "
+             "KKEEGG) are run one after another in a freshly imported package, in both orders. non-trivial = completed runs" % (
                  len(cfgs), "base tapes per deviation bound: %r" % acc_plan),
         bounds={"configurations": len(cfgs), "horizon": 400, "base_tapes_per_deviation_bound": acc_plan, "float_cap": "representatives", "randbelow_cap": C.CAP},
         exhaustive=True,
